@@ -120,3 +120,17 @@ Example C01_example :
   let vals := [Some 5; Some 1; None; Some 3; Some 4] in
   label_map 5 (compute [5] (AdjGrid [false]) vals (Some 1) [MinDelta 0; MinNpix 2 1]) = [-1; -1; -1; 0; 0].
 Proof. vm_compute. reflexivity. Qed.
+
+(* saturated (+inf) pixels: the model is over Z; embedding +inf as one finite number M far above
+   every finite value and the threshold keeps the threshold test and every comparison of two
+   pixel values (ExtVal.v; the correspondence check runs the implementation on data with +inf
+   against the model on the embedded data) *)
+From Dendro Require Import ExtVal.
+Theorem C01_saturated_pixels_threshold :
+  forall B M, 2 * B < M -> forall t x, - B <= t <= B -> bounded B x -> ext_above t x = (t <? emb M x).
+Proof. exact emb_above. Qed.
+Theorem C01_saturated_pixels_order :
+  forall B M, 2 * B < M -> forall x y, bounded B x -> bounded B y ->
+    ext_ltb x y = (emb M x <? emb M y) /\ ext_eqb x y = (emb M x =? emb M y).
+Proof. intros B M H x y Hx Hy. split; [exact (emb_ltb B M H x y Hx Hy) | exact (emb_eqb B M H x y Hx Hy)]. Qed.
+Print Assumptions C01_saturated_pixels_order.
